@@ -30,6 +30,14 @@ mutual
     | k :: ks => valid parent k && validList parent ks
 end
 
+/-- do these child names match the content model of `name` inside `parent`? (none: the context is not in the table) -/
+def kidsOk (parent name : String) (kids : List String) : Option Bool :=
+  (cm parent name).map (fun re => re.rmatch kids)
+
+/-- the schema REQUIRES the i-th child: the children match the content model, and no longer do without it -/
+def requiredChild (parent name : String) (kids : List String) (i : Nat) : Option Bool :=
+  (cm parent name).map (fun re => re.rmatch kids && !re.rmatch (kids.eraseIdx i))
+
 /-! ### what the writer emits, by child names -/
 
 /-- `<mesh>`: sources (in sourceById order), `<vertices>`, primitives (list order), kept extras -/
